@@ -7,6 +7,7 @@ import (
 	"encoding/json"
 	"fmt"
 	"strings"
+	"time"
 
 	v8 "rogchap.com/v8go"
 )
@@ -15,11 +16,10 @@ type jsKey struct {
 	iso  *v8.Isolate
 	ctx  *v8.Context
 	uses int
-	gens int // contexts created on this isolate
 }
 
-const prelude = `var __r = []; function Rec(){ __r.push(Array.prototype.slice.call(arguments)); }
-function RecFC(){ __r.push(["fc"].concat(Array.prototype.slice.call(arguments))); }`
+const prelude = `__r = []; Rec = function(){ __r.push(Array.prototype.slice.call(arguments)); }
+RecFC = function(){ __r.push(["fc"].concat(Array.prototype.slice.call(arguments))); }`
 
 func newJSKey() *jsKey {
 	k := &jsKey{iso: v8.NewIsolate()}
@@ -29,15 +29,11 @@ func newJSKey() *jsKey {
 
 func (k *jsKey) fresh() {
 	if k.ctx != nil {
+		// All isolates of the process share one pointer-compression cage (4 GB) and an isolate's old space is collected
+		// lazily, so 16 long-lived isolates exhaust the cage: the isolate is replaced together with the context.
 		k.ctx.Close()
-	}
-	// a tree that breaks the property makes most evaluations fail, each of which replaces the context; an isolate that
-	// has seen many contexts is replaced as well so that its heap cannot grow without bound
-	k.gens++
-	if k.gens > 100 {
 		k.iso.Dispose()
 		k.iso = v8.NewIsolate()
-		k.gens = 0
 	}
 	k.ctx = v8.NewContext(k.iso)
 	k.uses = 0
@@ -60,27 +56,33 @@ func browserText(s string) string {
 // run evaluates the bodies in order and returns the recorded calls.
 func (k *jsKey) run(bodies []string) (rec []any, err error) {
 	k.uses++
-	if k.uses > 1500 {
+	if k.uses > 20000 {
 		k.fresh()
 	}
-	defer func() {
-		if err != nil {
-			k.fresh() // a broken-out script may have changed the global object
-		}
-	}()
-	if _, err = k.ctx.RunScript("__r = [];", "reset.js"); err != nil {
+	// a broken-out script of an earlier evaluation may have redefined the recorder: define it again every time
+	// (replacing the whole context after every failed evaluation exhausts V8's heap on a tree where most fail)
+	pv, err := k.ctx.RunScript(prelude, "prelude.js")
+	if err != nil {
 		return nil, err
 	}
+	pv.Release()
+	// a runaway script must not hang the check
+	watchdog := time.AfterFunc(5*time.Second, k.iso.TerminateExecution)
+	defer watchdog.Stop()
 	for i, b := range bodies {
-		if _, err = k.ctx.RunScript(browserText(b), fmt.Sprintf("body%d.js", i)); err != nil {
+		bv, err := k.ctx.RunScript(browserText(b), fmt.Sprintf("body%d.js", i))
+		if err != nil {
 			return nil, err
 		}
+		bv.Release()
 	}
 	v, err := k.ctx.RunScript("JSON.stringify(__r)", "result.js")
 	if err != nil {
 		return nil, err
 	}
-	if err = json.Unmarshal([]byte(v.String()), &rec); err != nil {
+	res := v.String()
+	v.Release()
+	if err = json.Unmarshal([]byte(res), &rec); err != nil {
 		return nil, err
 	}
 	return rec, nil
@@ -89,7 +91,7 @@ func (k *jsKey) run(bodies []string) (rec []any, err error) {
 // parseJSON returns JSON.parse(text) as V8 sees it.
 func (k *jsKey) parseJSON(text string) (out any, err error) {
 	k.uses++
-	if k.uses > 1500 {
+	if k.uses > 20000 {
 		k.fresh()
 	}
 	if err = k.ctx.Global().Set("__body", browserText(text)); err != nil {
@@ -97,10 +99,11 @@ func (k *jsKey) parseJSON(text string) (out any, err error) {
 	}
 	v, err := k.ctx.RunScript("JSON.stringify(JSON.parse(__body))", "json.js")
 	if err != nil {
-		k.fresh()
 		return nil, err
 	}
-	if err = json.Unmarshal([]byte(v.String()), &out); err != nil {
+	res := v.String()
+	v.Release()
+	if err = json.Unmarshal([]byte(res), &out); err != nil {
 		return nil, err
 	}
 	return out, nil
